@@ -9,6 +9,7 @@ Specification-side lemmas for C03 (label-based spec `Spec/Naive.lean` only; no a
 -/
 import Kodama.Lemmas.SpecReplay
 import Kodama.Lemmas.SpecLaws
+import Kodama.Lemmas.WardClamp
 import Kodama.Laws
 namespace Kodama.Spec
 variable {α : Type} [Num α]
@@ -110,8 +111,8 @@ theorem noNaNRun_of_lwNoNaN {m : Method} {n : Nat} {data : Array α} (h : LwNoNa
 /-- **Hypothesis `Reducible`.**  For non-NaN arguments: whenever the merged pair is at least as
 close as each of its members is to `X` (`dab ≤ dax`, `dab ≤ dbx`), the updated dissimilarity is not
 below the merged height: `dab ≤ lw m dax dbx dab …`.  (True in exact arithmetic for single, complete,
-average, weighted, Ward; for the clamped average also in every ordered number type,
-`reducible_average`; FALSE under float rounding for weighted and Ward; false for
+average, weighted, Ward; for the clamped average and the clamped Ward also in every ordered number
+type, `reducible_average`, `reducible_ward`; FALSE under float rounding for weighted; false for
 centroid/median even in exact arithmetic.)  Implied by the textbook form `ReducibleMin`
 (`reducible_of_min`). -/
 def Reducible (α : Type) [Num α] (m : Method) : Prop :=
@@ -148,6 +149,29 @@ theorem reducible_average (L : OrderLaws α) : Reducible α .average := by
   intro dax dbx dab sa sb sx n1 n2 _ h1 h2
   simp only [lw]
   exact Gen.average_not_lt L sa sb n1 n2 h1 h2
+
+/-- The guarded, CLAMPED Ward update (`method::ward` after the second `fix:` commit) satisfies the
+textbook form in EVERY ordered number type, for all sizes, whatever `+ − × /` compute: `dab ≤ dax`,
+`dab ≤ dbx` is exactly the guard `¬ min dax dbx < dab`, under which the result is never below the
+smaller of its two arguments (`Gen.ward_not_lt_least`, `Lemmas/WardClamp.lean`). -/
+theorem reducibleMin_ward (L : OrderLaws α) : ReducibleMin α .ward := by
+  intro dax dbx dab sa sb sx _ _ _ h1 h2
+  simp only [lw]
+  have hg : Num.lt (Gen.wardLeast dax dbx) dab = false := by
+    rcases Gen.wardLeast_cases dax dbx with e | e <;> rw [e] <;> assumption
+  have := Gen.ward_not_lt_least L (a := dax) (b := dbx) sa sb sx hg
+  rcases Gen.wardLeast_cases dax dbx with e | e <;> rw [e] at this
+  · exact Or.inl this
+  · exact Or.inr this
+
+/-- The guarded, CLAMPED Ward update is reducible in EVERY ordered number type, for all sizes
+(`Gen.ward_not_lt` with the bound `t := dab`).  Before the fix this was false for IEEE floats (the
+rounded quotient can be below both arguments although `dab ≤ min dax dbx`), and false in exact
+arithmetic at sizes `0 0 0` (`0/0 = 0`). -/
+theorem reducible_ward (L : OrderLaws α) : Reducible α .ward := by
+  intro dax dbx dab sa sb sx n1 n2 n3 h1 h2
+  simp only [lw]
+  exact Gen.ward_not_lt L sa sb sx n1 n2 n3 (L.irrefl dab) h1 h2
 
 /-- `h` is a lower bound of all live off-diagonal table entries. -/
 def LowerBound (s : NState α) (h : α) : Prop :=
